@@ -157,6 +157,18 @@ PROPS["C03"] = {
     "level_note": LEVEL_NOTE_NOISE,
 }
 
+PROPS["C04"] = {
+    "pkgs": ["mailbox"],
+    "level": "fault_enumeration",
+    "quick_budget": 70, "thorough_budget": 1800,
+    "rule": "Enumerated: every constructible (clientMin,clientMax,serverMin,serverMax) in {0,1,2}^4 x {XX,KK} x auth payload size {0,1,497,498,499,500,65535,1 MiB,4 MiB} untampered; for every configuration every substitution of each act's clear-text version byte by 0..3 in all combinations across acts; every single-bit flip of every handshake byte for v2 XX and v2 KK (thorough: also v0 and v0-1 XX). Sampled: random multi-byte rewrites, truncations, extensions, duplications and replays of acts. Outcomes are classified {both fail, one completes, both complete}; only 'both complete' is constrained: complementary traffic keys, equal version, each side's remote static = the other's true key, initiator's auth data = responder's payload, remote key published on both sides or neither." + SIG_RULE,
+    "assumptions": ["white-box comparison of the two Machines' cipher keys and versions"],
+    "components": NOISE_COMPONENTS,
+    "expected_probes": ["c04.both-complete", "c04.both-fail", "c04.flip-applied"],
+    "level_text": "Fault enumeration: the finite MITM edit sets named in the rule are enumerated completely against real two-party handshakes under the simulator; further rewrites are seeded samples.",
+    "level_note": LEVEL_NOTE_NOISE,
+}
+
 # Properties that are pure functions of their input: no schedule, clock, fault
 # or interleaving enters them, so deterministic simulation has nothing to decide.
 NOT_APPLICABLE = {
